@@ -188,12 +188,13 @@ static void* hp_thread(void* p) {
   // closing phase: drop every protection this thread holds
   int me = t + 1;
   hazard_pointer_thread_record_t* r = hp_get(me);
+  // (only the slots it really holds: a slot the thread never touched keeps whatever the record was created with)
   for (int s = 0; s < hp_k; s++) {
     if (held[me][s]) {
       gh_released(me, s);
       held[me][s] = 0;
+      hazard_pointer_done_using(r, (size_t)s);
     }
-    hazard_pointer_done_using(r, (size_t)s);
   }
   return 0;
 }
